@@ -11,6 +11,7 @@ import (
 	"errors"
 	"fmt"
 	"os"
+	"regexp"
 	"sort"
 	"strconv"
 	"strings"
@@ -18,6 +19,7 @@ import (
 	"time"
 
 	"github.com/klev-dev/klevdb"
+	"github.com/klev-dev/klevdb/pkg/notify"
 	"github.com/klev-dev/klevdb/pkg/vshim/vos"
 	"github.com/klev-dev/klevdb/pkg/vshim/vsched"
 
@@ -64,10 +66,15 @@ func errClass(err error) string {
 		return "noindex"
 	case errors.Is(err, context.Canceled), errors.Is(err, context.DeadlineExceeded):
 		return "ctx"
+	case errors.Is(err, notify.ErrOffsetNotifyClosed):
+		return "closed"
 	default:
-		return "err:" + err.Error()
+		// directory names differ between executions of the same schedule
+		return "err:" + pathRe.ReplaceAllString(err.Error(), "")
 	}
 }
+
+var pathRe = regexp.MustCompile(`/[^ :]*/`)
 
 func toModels(ms []klevdb.Message) []model.Msg {
 	out := make([]model.Msg, len(ms))
@@ -194,7 +201,9 @@ type Execution struct {
 	Init     *model.Log
 	Parked     []bool // per thread: still parked when nothing else could run (C18)
 	ParkedDesc string
+	EverParked []bool
 	Ops        int
+	IndexDis   []string // index files that do not match their log after Close (C11 under concurrency)
 }
 
 var workerRoot string
@@ -310,21 +319,41 @@ func Exec(p Program, choices []int, free bool) (*Execution, error) {
 			x.Diverged = "scheduler object table overflow"
 		}
 		if dl, what := vsched.Deadlocked(); dl {
-			x.Deadlock = what
-			if p.Block {
-				// parked waiters are legitimate in blocking programs: release them
-				x.Parked = make([]bool, len(p.Threads))
-				x.Deadlock = ""
-				x.ParkedDesc = what
+			waitersOnly := p.Block
+			x.Parked = make([]bool, len(p.Threads))
+			for ti := range p.Threads {
+				if vsched.Finished(ti) {
+					continue
+				}
+				if vsched.ParkedInSelect(ti) {
+					x.Parked[ti] = true
+				} else {
+					waitersOnly = false
+				}
 			}
-			vsched.Abort()
-			if !p.Block {
+			if !waitersOnly {
+				x.Deadlock = what
+				vsched.Abort()
 				return x, nil
 			}
+			// quiescence with parked waiters: legitimate in blocking programs. Release
+			// them by cancelling every context and let the execution finish.
+			x.ParkedDesc = what
 			for _, c := range cancels {
 				c()
 			}
-			return x, nil
+			x.Hung = vsched.Resume(20 * time.Second)
+			if dl2, what2 := vsched.Deadlocked(); dl2 {
+				x.Deadlock = "after cancelling all contexts: " + what2
+				vsched.Abort()
+				return x, nil
+			}
+			x.Dec = append([]vsched.Decision(nil), vsched.Decisions()...)
+			x.Hist = append([]vsched.HistEvent(nil), vsched.History()...)
+		}
+		x.EverParked = make([]bool, len(p.Threads))
+		for ti := range p.Threads {
+			x.EverParked[ti] = vsched.EverParked(ti)
 		}
 		if x.Hung {
 			return x, nil
@@ -334,6 +363,11 @@ func Exec(p Program, choices []int, free bool) (*Execution, error) {
 	// final sequential observation
 	wl := w.L
 	off := klevdb.OffsetOldest
+	if closedBy(p) {
+		x.FinalErr = "closed"
+		w.L = nil
+		return x, nil
+	}
 	for i := 0; i < 100; i++ {
 		next, msgs, err := wl.Consume(off, 40)
 		if err != nil {
@@ -351,12 +385,16 @@ func Exec(p Program, choices []int, free bool) (*Execution, error) {
 		x.FinalErr = "NextOffset: " + err.Error()
 	}
 	x.FinalN = n
-	if !p.Block || !closedBy(p) {
-		if err := l.Close(); err != nil {
-			x.CloseErr = err.Error()
-		}
+	if err := l.Close(); err != nil {
+		x.CloseErr = err.Error()
 	}
 	w.L = nil
+	w.M = &model.Log{Live: x.Final, Next: x.FinalN, Monotone: true}
+	w.Dis = nil
+	w.CheckIndexFiles()
+	for _, d := range w.Dis {
+		x.IndexDis = append(x.IndexDis, d.Msg)
+	}
 	return x, nil
 }
 
@@ -526,6 +564,9 @@ func Linearizable(p Program, x *Execution) string {
 	var search func(m *model.Log) bool
 	search = func(m *model.Log) bool {
 		if len(order) == n {
+			if x.FinalErr == "closed" {
+				return true // the program closed the log: no final observation
+			}
 			if x.FinalErr != "" {
 				return false
 			}
